@@ -274,6 +274,26 @@ def analyse_callers(rep: Report) -> None:
                                     'into four names')
             s_name, e_name = (norm(x) for x in asg.targets[0].elts[:2])
             uses = 0
+            # (b0) the length handed in is the length of the bytes that are sliced
+            larg = n.args[0] if n.args else None
+            sliced = [m for m in ast.walk(fn) if isinstance(m, ast.Subscript) and isinstance(m.slice, ast.Slice)
+                      and m.slice.lower is not None and norm(m.slice.lower) == s_name]
+            if isinstance(larg, ast.Name):
+                defs = [a for a in ast.walk(fn) if isinstance(a, ast.Assign) and len(a.targets) == 1
+                        and norm(a.targets[0]) == larg.id and a.lineno < n.lineno]
+                if len(defs) == 1:
+                    larg = defs[0].value
+            if larg is not None and sliced:
+                len_of = norm(larg.args[0]) if isinstance(larg, ast.Call) and call_name(larg) == 'len' \
+                    and len(larg.args) == 1 else None
+                for m in sliced:
+                    if len_of is not None and norm(m.value) == len_of:
+                        rep.ok('R13.4', construct, f'length of the sliced data:{len_of}')
+                    else:
+                        rep.fail('R13.4', construct, f'length of the sliced data:{norm(m.value)[:40]}',
+                                 f'the range is computed for a resource of length `{norm(larg)}` but cut out '
+                                 f'of `{norm(m.value)}`: Content-Range total, 416 decision and the bytes '
+                                 'served disagree whenever the two lengths differ', n)
             for m in ast.walk(fn):
                 if isinstance(m, ast.Subscript) and isinstance(m.slice, ast.Slice) \
                         and m.slice.lower is not None and norm(m.slice.lower) == s_name:
